@@ -23,6 +23,8 @@ func init() {
 			ruleStrictReachesValidator(c, "R3")
 			ruleMissingParamFails(c, "R4")
 			ruleNameCleaned(c, "R5")
+			ruleParamLookupCommaOk(c, "R4")
+			ruleRegexpQuoting(c, "R2c")
 		},
 	})
 }
